@@ -135,6 +135,7 @@ type TypeDecl struct {
 	Implements  []string
 	Annotations []Annotation
 	Members     []Member // *Field | *Method, in source order
+	InitSites   []*Site  // sites planted outside any method (field initialisers), in source order; filled by the renderer
 	// renderer
 	DeclLine int
 }
@@ -194,5 +195,6 @@ type Expr struct {
 	LambdaParamType string // "" = untyped lambda parameter; otherwise written "(Type name) ->"
 	LambdaBody      *Expr
 	LambdaBlock     []*Stmt
+	TypeArgs        string // new: explicit type arguments or diamond written after the created name ("<>", "<Map.Entry<String, Integer>>")
 	AnonBody        string // new: text of an anonymous class body written after the arguments (its methods make no calls)
 }
